@@ -18,6 +18,26 @@ for it in spec["items"]:
     if not m:
         sys.exit(f"no statement found for {it['lemma']}:\n{out[-2000:]}\n{p.stderr.decode()[-2000:]}")
     stmts[it["lemma"]] = " ".join(m.group(1).split())
+if spec.get("append"):
+    # append mode: the hand-written property file is kept; a delimited block with the pinned statements is (re)placed at its end
+    tag = spec["append"]
+    path = os.path.join(COQ, "Properties", spec["id"] + ".v")
+    text = open(path).read()
+    begin, end = f"(* BEGIN {tag} *)", f"(* END {tag} *)"
+    if begin in text:
+        text = text[:text.index(begin)].rstrip("\n") + "\n" + text[text.index(end) + len(end):].lstrip("\n")
+    block = [begin, "(* " + spec["header"] + " *)", imports, ""]
+    for it in spec["items"]:
+        if it.get("comment"):
+            block.append("(* " + it["comment"] + " *)")
+        block.append(f'Theorem {it["name"]} : {stmts[it["lemma"]]}.')
+        block.append(f'Proof. exact {it["lemma"]}. Qed.')
+        block.append(f'Print Assumptions {it["name"]}.')
+        block.append("")
+    block.append(end)
+    open(path, "w").write(text.rstrip("\n") + "\n\n" + "\n".join(block) + "\n")
+    print("appended", spec["id"], len(spec["items"]), "theorems")
+    sys.exit(0)
 lines = ["(* " + spec["header"] + " *)", imports, ""]
 for it in spec["items"]:
     if it.get("comment"):
